@@ -36,13 +36,35 @@ class JsonWorld(CtorWorld):
 
 
 def check_node_link_graph(repo: Repo, rep: Report):
+    """Two links one instant apart; when the reader compares a time with a literal (or tests it for truth) everything is
+    repeated for every position of 0 relative to the two instants."""
+    from .absint import NeedZero
+    from .ordertype import enumerate_order_types
+    scratch = Report(rep.prop)
+    try:
+        n = _check_node_link_graph(repo, scratch, [OrderType([["q1"], ["q2"]], [1], 2)])
+    except NeedZero:
+        scratch = Report(rep.prop)
+        ots = list(enumerate_order_types(["q1", "q2", "0"], [("q1", 1, "<=", "q2", 0), ("q2", 0, "<=", "q1", 1)], 2))
+        n = _check_node_link_graph(repo, scratch, ots)
+    rep.absorb(scratch)
+    return n
+
+
+def _check_node_link_graph(repo: Repo, rep: Report, ots):
+    n = 0
+    for ot in ots:
+        n += _check_node_link_graph_ot(repo, rep, ot, len(ots) > 1)
+    return n
+
+
+def _check_node_link_graph_ot(repo: Repo, rep: Report, ot, with_zero):
     fn = repo.get(NODELINK, "node_link_graph")
     construct = repo.construct(NODELINK, "node_link_graph")
     params = [a.arg for a in fn.args.args]
     if params != ["data", "directed", "attrs"]:
         raise AnalysisError("%s: unexpected signature %s" % (construct, params))
     all_methods = {c: repo.class_methods(rel, c) for c, rel in CLASSES.items()}
-    ot = OrderType([["q1"], ["q2"]], [1], 2)
     n = 0
     for idkey in ("id", "name"):
       for data_directed in ((None, True, False) if idkey == "id" else (None,)):
@@ -71,8 +93,9 @@ def check_node_link_graph(repo: Repo, rep: Report):
                     return w, ip.call_function(fn, {"data": data, "directed": Const(arg_directed), "attrs": attrs}), None
                 except AbstractRaise as r:
                     return w, None, r
-            wit = "data['directed'] %s, argument directed=%s, attrs['id']=%r" % (
-                "absent" if data_directed is None else data_directed, arg_directed, idkey)
+            wit = "data['directed'] %s, argument directed=%s, attrs['id']=%r%s" % (
+                "absent" if data_directed is None else data_directed, arg_directed, idkey,
+                (" | link times: %s" % ot.describe()) if with_zero else "")
             for ch, (w, val, r) in run_all_choices(once, max_runs=64):
                 chs = ", ".join("%s=%s" % ("/".join(map(str, k)) if isinstance(k, tuple) else k, v) for k, v in ch.items())
                 wit2 = wit + ((" | " + chs) if chs else "")
